@@ -157,4 +157,197 @@ theorem front_eq (W : Ext Doc Conn) (timeout : Int) (link : URL) (accept : Str) 
     · rw [if_pos (show link.Scheme ≠ Go.str "https" from hs),
         if_pos (show link.Scheme ≠ Go.str "https" from hs)]; rfl
 
+/-! ### Consequences, for every world -/
+
+/-- What a result says was done on the network. -/
+def actsOf : Front Doc Conn → List (Act Conn)
+  | .done _ _ => []
+  | .again _ _ => []
+  | .failed _ a => a
+  | .reading _ _ a => a
+
+/-- Every result's network record is one of six shapes: nothing; a dial; a dial, then (if a
+    positive timeout is configured) a deadline, then at most one write, then possibly a close. -/
+theorem acts_shapes (W : Ext Doc Conn) (timeout : Int) (link : URL) (accept : Str) (tol : List Str) (n : Nat) :
+    let d : Act Conn := .dial (dialer timeout) (Go.str "tcp") (targetOf link)
+    let req := Jtp.request link.RequestURI link.Host accept
+    actsOf (Get_front W timeout link accept tol n) = [] ∨
+    actsOf (Get_front W timeout link accept tol n) = [d] ∨
+    (∃ c, W.dial (dialer timeout) (Go.str "tcp") (targetOf link) = some c ∧ link.Scheme = Go.str "https" ∧
+      ((timeout > 0 ∧ (actsOf (Get_front W timeout link accept tol n) = [d, .setDeadline c timeout, .close c] ∨
+          actsOf (Get_front W timeout link accept tol n) = [d, .setDeadline c timeout, .write c req, .close c] ∨
+          actsOf (Get_front W timeout link accept tol n) = [d, .setDeadline c timeout, .write c req])) ∨
+       (¬ timeout > 0 ∧ (actsOf (Get_front W timeout link accept tol n) = [d, .write c req, .close c] ∨
+          actsOf (Get_front W timeout link accept tol n) = [d, .write c req])))) := by
+  intro d req
+  rw [front_eq]; unfold front_spec
+  cases W.cacheGet (cacheKey tol link.String) with
+  | some b =>
+    simp only []
+    cases b.redirect with
+    | none => left; rfl
+    | some t => by_cases hn : n = 0 <;> simp [hn, actsOf]
+  | none =>
+    simp only []
+    by_cases hs : link.Scheme = Go.str "https"
+    · rw [if_neg (show ¬ (link.Scheme ≠ Go.str "https") from fun h => h hs)]
+      cases hd : W.dial (dialer timeout) (Go.str "tcp") (targetOf link) with
+      | none => right; left; rfl
+      | some c =>
+        right; right
+        refine ⟨c, rfl, hs, ?_⟩
+        simp only [afterDial]
+        by_cases ht : timeout > 0
+        · left; refine ⟨ht, ?_⟩
+          rw [if_pos ht]
+          cases W.setDeadlineFails <;> cases W.writeFails <;> simp [actsOf, d, req]
+        · right; refine ⟨ht, ?_⟩
+          rw [if_neg ht]
+          cases W.writeFails <;> simp [actsOf, d, req]
+    · rw [if_pos (show link.Scheme ≠ Go.str "https" from hs)]; left; rfl
+
+/-- The bytes the translated code writes are the model's request, for every link and accept
+    string: request line with `RequestURI()`, `Host:` with `link.Host`, `Accept:`, blank line. -/
+theorem written_eq (W : Ext Doc Conn) (timeout : Int) (link : URL) (accept : Str) (tol : List Str) (n : Nat)
+    (c : Conn) (bytes : Str) (h : Act.write c bytes ∈ actsOf (Get_front W timeout link accept tol n)) :
+    bytes = Jtp.request link.RequestURI link.Host accept := by
+  rcases acts_shapes W timeout link accept tol n with e | e | ⟨c', _, _, ⟨_, e | e | e⟩ | ⟨_, e | e⟩⟩ <;>
+    rw [e] at h <;> simp at h <;> exact h.2
+
+/-- Every connection goes to `JoinHostPort(Hostname(), Port())`, port 443 when the link names none,
+    over "tcp" with the package's dialer. -/
+theorem dial_target (W : Ext Doc Conn) (timeout : Int) (link : URL) (accept : Str) (tol : List Str) (n : Nat)
+    (d : Go.Net.Dialer) (network addr : Str)
+    (h : Act.dial d network addr ∈ actsOf (Get_front W timeout link accept tol n)) :
+    d = dialer timeout ∧ network = Go.str "tcp" ∧
+      addr = Go.Net.joinHostPort link.Hostname (if link.Port = [] then "443".toList else link.Port) := by
+  have ht : targetOf link = Go.Net.joinHostPort link.Hostname (if link.Port = [] then "443".toList else link.Port) := rfl
+  rw [← ht]
+  rcases acts_shapes W timeout link accept tol n with e | e | ⟨c', _, _, ⟨_, e | e | e⟩ | ⟨_, e | e⟩⟩ <;>
+    rw [e] at h <;> simp at h <;> exact h
+
+/-- A link whose scheme is not `https` never reaches the dialer: nothing at all is done on the
+    network, whatever the cache holds. -/
+theorem non_https_never_dials (W : Ext Doc Conn) (timeout : Int) (link : URL) (accept : Str) (tol : List Str)
+    (n : Nat) (hs : link.Scheme ≠ Go.str "https") :
+    actsOf (Get_front W timeout link accept tol n) = [] := by
+  rw [front_eq]; unfold front_spec
+  cases W.cacheGet (cacheKey tol link.String) with
+  | some b =>
+    simp only []
+    cases b.redirect with
+    | none => rfl
+    | some t => by_cases hn : n = 0 <;> simp [hn, actsOf]
+  | none => simp only []; rw [if_pos hs]; rfl
+
+/-! ### One call of the translated `Get` is one step of the model's `get` -/
+
+/-- A bundle in the code's cache stands for an entry of the model's (URLs as their `String()`):
+    the two shapes `Get` files (`GenJtp.Get_response`, `Gen03.replyOf`). -/
+inductive Rep : GenJtp.bundle URL Doc → Entry Doc → Prop where
+  | doc (d : Doc) (s : URL) : Rep { item := some d, source := some s, redirect := none } (.doc d s.String)
+  | redirect (t : URL) : Rep { item := none, source := none, redirect := some t } (.redirect t.String)
+
+/-- The connections a network record opened, as the model counts them: one per dial. -/
+def opened (u : Url) (acts : List (Act Conn)) : List Url :=
+  acts.filterMap fun a => match a with
+    | .dial _ _ _ => some u
+    | _ => none
+
+/-- One call of `Get` as translated — `Get_front`, the reader, `Get_response` — in a world that is
+    the model's at this link: the cache lookup finds what the model's cache holds under the key,
+    `https` is the scheme test, `serve` is the dial followed by what the connection delivers,
+    `SetDeadline`/`Write`/`Close` do not fail (the model has no such failures), decoder and
+    resolver as in `Gen03.get_fresh_eq`.  Then `Jtp.get` at this link is: the remembered document;
+    the model's `get` at the remembered redirect with one unit less, or an error at budget 0; an
+    error without a connection for another scheme; an error after one connection when the dial
+    fails; otherwise what the translated response part returns, with the entry it files. -/
+theorem get_step_eq (env : Env Doc) (V : GenJtp.Ext URL Mime.MediaType Doc) (W : Ext Doc Conn)
+    (timeout : Int) (link : URL) (accept : Str) (tol : List Str) (budget : Nat) (cache : Cache Doc)
+    (hV : Gen03.Faithful V) (hc : V.closeFails = false) (hd : V.decode = env.decode)
+    (hr : ∀ v, (V.urlParse v).map (fun r => (V.resolveReference link r).String) = env.resolve link.String v)
+    (hs : env.https link.String = decide (link.Scheme = Go.str "https"))
+    (hserve : env.serve link.String = (W.dial (dialer timeout) (Go.str "tcp") (targetOf link)).map W.newReader)
+    (hdl : W.setDeadlineFails = false) (hw : W.writeFails = false)
+    (hcache : match (cache.get (cacheKey tol link.String)).1 with
+      | none => W.cacheGet (cacheKey tol link.String) = none
+      | some e => ∃ b, W.cacheGet (cacheKey tol link.String) = some b ∧ Rep b e) :
+    get env tol budget cache link.String =
+      (let u := link.String
+       let key := cacheKey tol u
+       let cache' := (cache.get key).2
+       match Get_once V W timeout link accept tol budget with
+       | .front (.done (some d) (some src)) => ⟨.ok d src.String, cache', []⟩
+       | .front (.again (some t) b) => get env tol b cache' t.String
+       | .front (.failed _ acts) => ⟨.err, cache', opened u acts⟩
+       | .front _ => ⟨.err, cache', []⟩
+       | .response acts (.error _) => ⟨.err, cache', opened u acts⟩
+       | .response acts (.ok (.done d _ _)) => ⟨.ok d u, cache'.add key (.doc d u), opened u acts⟩
+       | .response acts (.ok (.again none _ _)) => ⟨.err, cache', opened u acts⟩
+       | .response acts (.ok (.again (some t) b _)) =>
+         let r := get env tol b (cache'.add key (.redirect t.String)) t.String
+         ⟨r.res, r.cache, opened u acts ++ r.requests⟩) := by
+  unfold Get_once
+  rw [front_eq, Jtp.get]; unfold front_spec
+  dsimp only
+  rcases hg : cache.get (cacheKey tol link.String) with ⟨e, c'⟩
+  rw [hg] at hcache
+  simp only
+  cases e with
+  | some e =>
+    obtain ⟨b, hb, hrep⟩ := hcache
+    rw [hb]
+    cases hrep with
+    | doc d s => rfl
+    | redirect t =>
+      cases budget with
+      | zero => rfl
+      | succ m => rfl
+  | none =>
+    simp only at hcache
+    rw [hcache]
+    simp only [hs]
+    by_cases hsch : link.Scheme = Go.str "https"
+    · rw [if_neg (show ¬ (link.Scheme ≠ Go.str "https") from fun h => h hsch)]
+      simp only [hsch, decide_true, Bool.not_true, Bool.false_eq_true, if_false, hserve]
+      cases hdial : W.dial (dialer timeout) (Go.str "tcp") (targetOf link) with
+      | none => rfl
+      | some c =>
+        simp only [afterDial, hdl, hw, Bool.false_eq_true, if_false, Option.map]
+        by_cases ht : timeout > 0
+        · rw [if_pos ht]
+          simp only [Gen03.response_eq hV hc]
+          cases exchange tol (W.newReader c) with
+          | err => rfl
+          | doc body =>
+            simp only [Gen03.replyOf, hd]
+            cases env.decode body <;> rfl
+          | redirect v =>
+            simp only [Gen03.replyOf]
+            rw [← hr v]
+            cases V.urlParse v with
+            | none => rfl
+            | some r =>
+              cases budget with
+              | zero => rfl
+              | succ b => simp [opened]
+        · rw [if_neg ht]
+          simp only [Gen03.response_eq hV hc]
+          cases exchange tol (W.newReader c) with
+          | err => rfl
+          | doc body =>
+            simp only [Gen03.replyOf, hd]
+            cases env.decode body <;> rfl
+          | redirect v =>
+            simp only [Gen03.replyOf]
+            rw [← hr v]
+            cases V.urlParse v with
+            | none => rfl
+            | some r =>
+              cases budget with
+              | zero => rfl
+              | succ b => simp [opened]
+    · rw [if_pos (show link.Scheme ≠ Go.str "https" from hsch)]
+      simp [hsch, opened]
+
 end Gen04
